@@ -1,6 +1,7 @@
 import Syzgy.Lemmas.Scan
 import Syzgy.Lemmas.Refine
 import Syzgy.Lemmas.Coll
+import Syzgy.Lemmas.CollIds
 /-!
 # C01 — document store fidelity (property theorems only; helper lemmas live in `Lemmas/`)
 -/
@@ -88,6 +89,27 @@ theorem new_collection_is_empty (name : Bytes) (opts : Cfg) (hq : Supported opts
     (hm : opts.metric = 0 ∨ opts.metric = 1) (hlen : (encodeOpts name opts).length < 1000000000) :
     ∃ c segs, newCollection none name opts .createIfNotExists = .ok c ∧ c.cfg = opts ∧ CRep c segs (fun _ => none) :=
   new_collection_rep name opts hq hm hlen
+
+/-- **GetAllIDs and GetDocumentCount in every reachable state.** After any sequence of document
+    operations on `uint64` ids, `GetAllIDs` lists exactly the ids the specification binds — ascending,
+    each once — and `GetDocumentCount` is their number (the header record is not counted). -/
+theorem ids_and_count_are_spec (ops : List DocOp) (c : Coll) (segs : List Seg) (docs : DocStore) (h : CRep2 c segs docs)
+    (hf : DocFitsAll2 c docs ops) :
+    (∀ id, id ∈ getAllIDs (ops.foldl applyDocOp c) ↔ ops.foldl docSpec docs id ≠ none) ∧
+    (getAllIDs (ops.foldl applyDocOp c)).Pairwise (· ≤ ·) ∧ (getAllIDs (ops.foldl applyDocOp c)).Nodup ∧
+    getCount (ops.foldl applyDocOp c) = ((getAllIDs (ops.foldl applyDocOp c)).length : Int) :=
+  listing_after_run ops c segs docs h hf
+
+/-- a newly created collection satisfies the extended invariant (so the theorem above applies to every
+    history that starts with creation) -/
+theorem new_collection_lists_nothing (name : Bytes) (opts : Cfg) (hq : Supported opts.quant)
+    (hm : opts.metric = 0 ∨ opts.metric = 1) (hlen : (encodeOpts name opts).length < 1000000000) :
+    ∃ c segs, newCollection none name opts .createIfNotExists = .ok c ∧ c.cfg = opts ∧ CRep2 c segs (fun _ => none) :=
+  new_collection_rep2 name opts hq hm hlen
+
+/-- record ids are the decimal renderings of the ids: parsing one gives the id back, for every `uint64` -/
+theorem record_id_parses_back (id : Nat) (h : id < 18446744073709551616) : parseUint (ridOf id) = some id :=
+  parseUint_ridOf id h
 
 /-- distinct ids are stored under distinct record ids, none of them the header's -/
 theorem record_ids_distinct (a b : Nat) : (ridOf a = ridOf b → a = b) ∧ ridOf a ≠ [] :=
